@@ -120,7 +120,7 @@ func checkSkipDir(p *Prog, r *Report, rule string, pkgs ...string) {
 				if !ok || len(ret.Results) != 1 {
 					continue
 				}
-				res := ret.Results[0]
+				res := retResults(ret)[0]
 				// a phi of SkipDir with other values: treat each SkipDir edge conservatively
 				if phi, ok := res.(*ssa.Phi); ok {
 					for _, e := range phi.Edges {
@@ -310,7 +310,7 @@ func checkSortLookup(p *Prog, r *Report, nameF *types.Var, find *ssa.Function) {
 			if !ok || len(ret.Results) != 1 {
 				continue
 			}
-			bo, ok := ret.Results[0].(*ssa.BinOp)
+			bo, ok := retResults(ret)[0].(*ssa.BinOp)
 			if !ok || bo.Op != token.LSS {
 				continue
 			}
@@ -371,11 +371,11 @@ func checkSortLookup(p *Prog, r *Report, nameF *types.Var, find *ssa.Function) {
 		n := 0
 		for _, b := range rfl.Blocks {
 			ret, ok := lastInstr(b).(*ssa.Return)
-			if !ok || len(ret.Results) != 2 || isNilConst(ret.Results[0]) {
+			if !ok || len(ret.Results) != 2 || isNilConst(retResults(ret)[0]) {
 				continue
 			}
 			n++
-			ok2 := sortCall != nil && ret.Results[0] == sorted && InstrDominates(sortCall, ret)
+			ok2 := sortCall != nil && retResults(ret)[0] == sorted && InstrDominates(sortCall, ret)
 			r.Cond(ok2, rule, "ReceiveFileList returns sorted list", p.Pos(ret.Pos()), "the returned list must be the value passed to sortFileList, sorted before returning")
 		}
 		if n == 0 {
